@@ -393,6 +393,17 @@ pub fn gen_random(t: &mut Tape) -> String {
     s
 }
 
+/// small lexically dense seeds for the libFuzzer corpus
+pub fn fuzz_seeds() -> Vec<String> {
+    let mut v = vec![];
+    for i in 0..40u64 {
+        let words: Vec<u16> = (0..120u64).map(|k| ((i * 7919 + k * 104729 + (i * k) % 251) % 65536) as u16).collect();
+        let mut t = Tape::new(&words);
+        v.push(gen_random(&mut t));
+    }
+    v
+}
+
 pub fn run(ctx: &Ctx) -> i32 {
     ctx.run_replays(|_check, case| {
         let src = case.get("source")?.as_str()?;
@@ -418,6 +429,9 @@ pub fn run(ctx: &Ctx) -> i32 {
         |t| json!({"source": gen_random(t)}),
         |c: &Value| outcome(c["source"].as_str().unwrap(), &ctx.known),
     );
+    if !ctx.quick() {
+        ctx.fuzz_campaign("lex_tile", ctx.fuzz_secs(240), 512);
+    }
     ctx.finish(
         "every string over each themed alphabet up to max_len (exhaustive) plus random concatenations of lexical fragments up to 200 chars; non-trivial = accepted with >= 2 tokens of >= 2 kinds; distinct = distinct source string (enumeration is duplicate-free by construction, random part by hash)",
         &["byte offsets on char boundaries are what the lexer reports (token spans are byte ranges)", "inline whitespace = Unicode whitespace other than CR/LF (what the lexer's whitespace() consumes)"],
